@@ -3,6 +3,8 @@ package tubes
 // C18 — tube frame headers round-trip (frame.toBytes / fromBytes,
 // initiateFrame.toBytes / fromInitiateBytes and the path the muxer really
 // takes for initiate frames: fromInitiateBytes(fromBytes(datagram).toBytes())).
+// A decoded frame must stay what it is after the datagram buffer it came from
+// has been overwritten (the muxer reuses one read buffer for every datagram).
 
 import (
 	"bytes"
